@@ -299,7 +299,7 @@ static int frame_len(vrng *r)
 }
 static long gen_synth(vrng *r, unsigned char *o)
 {
-   int config = vchance(r, 94) ? (int)vbelow(r, 16) : 16 + (int)vbelow(r, 16);
+   int config = vchance(r, 72) ? (int)vbelow(r, 16) : 16 + (int)vbelow(r, 16);
    int stereo = vbelow(r, 2), code = vchance(r, 72) ? 0 : 1 + (int)vbelow(r, 3);
    long n = 0; int i, count, sizes[8], vbr = 0, pad = 0;
    o[n++] = config * 8 + stereo * 4 + code;
